@@ -1,20 +1,21 @@
 #!/bin/bash
-# usage: confirm_seed.sh <ID>   -- confirms every /tmp/seed_out/<ID>/change_*/ in worktree /tmp/wt_<ID>
+# usage: confirm_seed.sh <ID>   -- confirms every $OUT/<ID>/change_*/ in worktree /tmp/wt_<ID>
 # For each change: demo on clean tree must exit 0; with patch non-zero; baseline stable_pass tests must all still pass.
 ID=$1
-WT=/tmp/wt_$ID
+OUT=${SEED_OUT:-/tmp/seed_out}
+WT=${SEED_WT:-/tmp/wt_}$ID
 cd $WT || exit 2
 git checkout -q -- . ; git clean -fdq
-for d in /tmp/seed_out/$ID/change_*; do
+for d in $OUT/$ID/change_*; do
   [ -f $d/patch.diff ] || continue
   n=$(basename $d)
   cp $d/demo.py $WT/_demo_seed.py
-  ( cd $WT && PYTHONPATH=$WT timeout 300 /venv/bin/python _demo_seed.py >/tmp/seed_out/$ID/$n.clean.out 2>&1 ); rc_clean=$?
+  ( cd $WT && PYTHONPATH=$WT timeout 300 /venv/bin/python _demo_seed.py >$OUT/$ID/$n.clean.out 2>&1 ); rc_clean=$?
   git apply $d/patch.diff || { echo "$ID $n PATCH-DOES-NOT-APPLY"; rm -f $WT/_demo_seed.py; continue; }
-  ( cd $WT && PYTHONPATH=$WT timeout 300 /venv/bin/python _demo_seed.py >/tmp/seed_out/$ID/$n.patched.out 2>&1 ); rc_patched=$?
+  ( cd $WT && PYTHONPATH=$WT timeout 300 /venv/bin/python _demo_seed.py >$OUT/$ID/$n.patched.out 2>&1 ); rc_patched=$?
   rm -f $WT/_demo_seed.py
-  ( cd $WT && PYTHONPATH=$WT /venv/bin/python -m pytest -q -p no:cacheprovider --timeout=900 --continue-on-collection-errors --junitxml=/tmp/seed_out/$ID/$n.junit.xml >/tmp/seed_out/$ID/$n.suite.log 2>&1 )
-  miss=$(/venv/bin/python - /tmp/seed_out/$ID/$n.junit.xml <<'PY'
+  ( cd $WT && PYTHONPATH=$WT /venv/bin/python -m pytest -q -p no:cacheprovider --timeout=900 --continue-on-collection-errors --junitxml=$OUT/$ID/$n.junit.xml >$OUT/$ID/$n.suite.log 2>&1 )
+  miss=$(/venv/bin/python - $OUT/$ID/$n.junit.xml <<'PY'
 import json,sys,xml.etree.ElementTree as ET
 want=set(json.load(open('/root/.vp/BASELINE.json'))['stable_pass'])
 got=set()
